@@ -91,6 +91,7 @@ func (e *Engine) VerifyUnit(c *Contract) (r *FnRun) {
 		}
 	}
 	fr.entry = st.Clone()
+	r.preRegisterTracks(fr)
 	r.assertAxioms(fr)
 	ctx := fr.ctxHere()
 	// package invariants over package-level variables
@@ -222,6 +223,11 @@ func (r *FnRun) checkGlobalImmutability(fr *Frame) {
 			}
 			var bad []string
 			stores := 0
+			refLike := false
+			switch types.Unalias(g.Type().(*types.Pointer).Elem()).Underlying().(type) {
+			case *types.Slice, *types.Map, *types.Pointer:
+				refLike = true
+			}
 			for _, fn := range r.Eng.FnByName {
 				if pkgOf(fn) != pkg {
 					continue
@@ -243,6 +249,10 @@ func (r *FnRun) checkGlobalImmutability(fr *Frame) {
 									bad = append(bad, "address stored in "+r.fnShort(fn))
 								}
 							case *ssa.UnOp:
+								if !refLike {
+									// a copied scalar/interface value cannot be used to change the variable
+									continue
+								}
 								if why := escapingUse(in, 0); why != "" {
 									bad = append(bad, why+" in "+r.fnShort(fn)+" at "+r.pos(in.Pos()))
 								}
@@ -697,4 +707,67 @@ func freeVarWritten(fn *ssa.Function, j int) bool {
 		}
 	}
 	return false
+}
+
+// preRegisterTracks records the types of the values logged for tracked callees, from the call sites in the body
+// (so that a specification may mention a call log before the first call has been executed symbolically).
+func (r *FnRun) preRegisterTracks(fr *Frame) {
+	c := r.Contract
+	if c == nil || len(c.Tracks) == 0 {
+		return
+	}
+	var visit func(fn *ssa.Function, depth int)
+	visit = func(fn *ssa.Function, depth int) {
+		for _, b := range fn.Blocks {
+			for _, in := range b.Instrs {
+				var cc *ssa.CallCommon
+				switch in := in.(type) {
+				case *ssa.Call:
+					cc = &in.Call
+				case *ssa.Go:
+					cc = &in.Call
+				case *ssa.Defer:
+					cc = &in.Call
+				}
+				if cc == nil {
+					continue
+				}
+				if _, isB := cc.Value.(*ssa.Builtin); isB {
+					continue
+				}
+				names := fr.calleeNames(cc)
+				for _, tr := range c.Tracks {
+					if !nameMatches(names, tr.Callee) {
+						continue
+					}
+					sig := cc.Signature()
+					for n := 1; n <= 2; n++ {
+						for i := 0; i < sig.Results().Len(); i++ {
+							key := fmt.Sprintf("res.%s.%d.%d", tr.Alias, n, i)
+							if _, ok := r.trackTypes[key]; !ok {
+								r.trackTypes[key] = sig.Results().At(i).Type()
+							}
+						}
+						na := len(cc.Args)
+						if cc.IsInvoke() {
+							na++
+						}
+						for k := 0; k < na; k++ {
+							key := fmt.Sprintf("arg.%s.%d.%d", tr.Alias, n, k)
+							if _, ok := r.trackTypes[key]; !ok {
+								r.trackTypes[key] = fr.argType(cc, k)
+							}
+						}
+					}
+					for i := 0; i < sig.Results().Len(); i++ {
+						key := fmt.Sprintf("last.%s.%d", tr.Alias, i)
+						if _, ok := r.trackTypes[key]; !ok {
+							r.trackTypes[key] = sig.Results().At(i).Type()
+						}
+					}
+				}
+			}
+		}
+	}
+	visit(fr.Fn, 0)
 }
